@@ -306,8 +306,19 @@ func (ex *Exec) jsonUnmarshal(data *BytesV, dst *IfaceV) Value {
 	p := ex.ptr(dst.v)
 	et := pt.Elem()
 	s := data.s
-	// nil / empty input is a syntax error
-	if ex.branch(tt.Or(data.isNil, tt.Eq(s, tt.Str(""))), "json-empty-input") {
+	// nil / empty input is a syntax error (a string known to be a valid encoding is not empty)
+	emptyIn := tt.Or(data.isNil, tt.Eq(s, tt.Str("")))
+	if isStringMap(et) && validMap(tt, s).IsTrue() {
+		emptyIn = data.isNil
+	}
+	if pp, ok := et.Underlying().(*types.Pointer); ok {
+		key := typeKey(pp.Elem())
+		known := liftIte(tt, s, func(s *Term) *Term { return tt.Bool(s.op == "uf:jenc_"+key) })
+		if known.IsTrue() {
+			emptyIn = data.isNil
+		}
+	}
+	if ex.branch(emptyIn, "json-empty-input") {
 		return ex.opaqueErr("unexpected end of JSON input")
 	}
 	switch u := et.Underlying().(type) {
